@@ -266,6 +266,12 @@ def run(ctx):
              floor=8)
     for fam in SA:
         r2(ctx, fam)
+    ctx.rule('C04.R4', 'a refused duplicate CONNECT leaves the live '
+             'connection (and its session) untouched; admission/refusal '
+             'skeleton of _handle_connect (shared rule)', floor=20)
+    from .c04 import r4_connect
+    for fam in SA:
+        r4_connect(ctx, fam)
     ctx.rule('C16.R3', 'a session ends with its namespace connection',
              floor=2)
     for fam in SA:
